@@ -1,2 +1,229 @@
-(* C08 -- statements only. *)
-From UP Require Import Base.Chars Model.Uri.
+(* C08 -- normalization yields the RFC 3986 syntax-based normal form.  Statements only.
+
+   All theorems are about the model of src/UriNormalize.c: [normalize mask u] (uriNormalizeSyntaxExMm,
+   allocation succeeding) and [mask_required u] (uriNormalizeSyntaxMaskRequiredEx), for every URI
+   object [u] and every mask, not only parsed ones.  Where a statement needs more than that, the
+   hypothesis is one of (Spec/NormalWf.v):
+     pct_wf t            every '%' of t starts "%" HEXDIG HEXDIG   (the grammar allows no other '%')
+     uri_pct_wf u        pct_wf of user info, registered name, path segments, query, fragment
+     uri_wf u            uri_pct_wf u, hostText = ipFuture text when the host is an IPvFuture literal,
+                         and not (no host and path = one empty segment); what the parser produces
+     relative_ref u      no scheme, no host, not absolutePath: the case in which the C code removes dot
+                         segments with its "relative" rule
+   and a [_refuted] theorem shows that it cannot be dropped.
+   [components u] is every field but [owner].
+
+   Not claimed here (see the end of the file): the path of a relative-path reference equals the
+   specification's (known findings D7a/b/c), the "/." guard (D14), and the equality of the path with
+   RFC 3986 5.2.4 on the path *text* (shared with C06, Proofs/ResolveProofs.v). *)
+From Coq Require Import List NArith Bool.
+From UP Require Import Base.Chars Model.Uri Model.Common Model.Normalize Model.Parse Spec.NormalWf
+  Proofs.NormalizeProofs.
+From UP Require Spec.Normal.
+Import ListNotations.
+Local Open Scope N_scope.
+
+(* ---- A. percent-encodings ------------------------------------------------------------- *)
+(* uriFixPercentEncodingEngine computes the specification's percent-encoding normalization:
+   hex digits upper case, unreserved characters decoded, nothing else changed *)
+Theorem C08_pct_engine_is_spec : forall t, pct_wf t = true -> fix_pct t = Normal.pct_norm false t.
+Proof. exact fix_pct_spec. Qed.
+Print Assumptions C08_pct_engine_is_spec.
+
+Theorem C08_pct_idempotent : forall t, pct_wf t = true -> fix_pct (fix_pct t) = fix_pct t.
+Proof. exact fix_pct_idem. Qed.
+Print Assumptions C08_pct_idempotent.
+
+(* for every text, well formed or not: the output is never longer than the input
+   (uriFixPercentEncodingInplace writes into the buffer it reads; the malloc variant allocates the old length) *)
+Theorem C08_pct_never_longer : forall t, (length (fix_pct t) <= length t)%nat.
+Proof. exact fix_pct_length. Qed.
+Print Assumptions C08_pct_never_longer.
+
+(* uriContainsUglyPercentEncoding is exact: it answers "no" iff the engine changes nothing *)
+Theorem C08_pct_query_exact : forall t, pct_wf t = true -> (contains_ugly t = false <-> fix_pct t = t).
+Proof. exact contains_ugly_exact. Qed.
+Print Assumptions C08_pct_query_exact.
+
+(* ---- B. case -------------------------------------------------------------------------- *)
+Theorem C08_lowercase_is_spec : forall t, lowercase t = map Normal.lower t.
+Proof. exact lowercase_is_map_lower. Qed.
+Print Assumptions C08_lowercase_is_spec.
+
+Theorem C08_lowercase_idempotent : forall t, lowercase (lowercase t) = lowercase t.
+Proof. exact lowercase_idem. Qed.
+Print Assumptions C08_lowercase_idempotent.
+
+Theorem C08_lowercase_length : forall t, length (lowercase t) = length t.
+Proof. exact lowercase_length. Qed.
+Print Assumptions C08_lowercase_length.
+
+(* uriContainsUppercaseLetters is exact *)
+Theorem C08_case_query_exact : forall t, contains_upper t = false <-> lowercase t = t.
+Proof. exact contains_upper_exact. Qed.
+Print Assumptions C08_case_query_exact.
+
+(* registered name: engine, then lower-casing outside triplets = the specification's host normal form *)
+Theorem C08_host_is_spec : forall t, pct_wf t = true ->
+  lowercase_except_pct (fix_pct t) = Normal.pct_norm true t.
+Proof. exact host_norm_spec. Qed.
+Print Assumptions C08_host_is_spec.
+
+(* ---- C. what normalization does, field by field, and mask exactness --------------------- *)
+(* full normalization in the vocabulary of the specification: scheme and IPvFuture literal lower-cased,
+   user info / query / fragment / every path segment percent-normalized, registered name percent-
+   normalized and lower-cased, then dot segments removed by the walk of uriRemoveDotSegmentsEx and a
+   lone empty segment of a host-less URI dropped; ip4, ip6, port, absolutePath as they were *)
+Theorem C08_full_fields : forall u, uri_pct_wf u = true ->
+  normalize 63 u =
+  mkUri (omap (map Normal.lower) (scheme u))
+        (omap (Normal.pct_norm false) (userInfo u))
+        (match ipFuture u with
+         | Some f => Some (map Normal.lower f)
+         | None => if is_regname u then omap (Normal.pct_norm true) (hostText u) else hostText u
+         end)
+        (ip4 u) (ip6 u)
+        (omap (map Normal.lower) (ipFuture u))
+        (portText u)
+        (let segs := map (Normal.pct_norm false) (pathSegs u) in
+         let out := match segs with
+                    | [] => []
+                    | _ => rds_walk (relative_ref u) (is_host_set u) (absolutePath u) [] segs
+                    end in
+         if negb (is_host_set u) then match out with [[]] => [] | _ => out end else out)
+        (omap (Normal.pct_norm false) (query u))
+        (omap (Normal.pct_norm false) (fragment u))
+        (absolutePath u) true.
+Proof. exact normalize_full_fields. Qed.
+Print Assumptions C08_full_fields.
+
+Theorem C08_mask_zero_identity : forall u, normalize 0 u = u.
+Proof. exact normalize_zero. Qed.
+Print Assumptions C08_mask_zero_identity.
+
+Theorem C08_owner_after : forall mask u, mask <> 0 -> owner (normalize mask u) = true.
+Proof. exact normalize_owner. Qed.
+Print Assumptions C08_owner_after.
+
+Theorem C08_never_touched : forall mask u,
+  ip4 (normalize mask u) = ip4 u /\ ip6 (normalize mask u) = ip6 u
+  /\ portText (normalize mask u) = portText u /\ absolutePath (normalize mask u) = absolutePath u.
+Proof. exact normalize_untouched. Qed.
+Print Assumptions C08_never_touched.
+
+(* a component that is not selected keeps its text *)
+Theorem C08_mask_clear_unchanged : forall mask u,
+  (bit mask M_SCHEME = false -> scheme (normalize mask u) = scheme u)
+  /\ (bit mask M_USER_INFO = false -> userInfo (normalize mask u) = userInfo u)
+  /\ (bit mask M_HOST = false ->
+      hostText (normalize mask u) = hostText u /\ ipFuture (normalize mask u) = ipFuture u)
+  /\ (bit mask M_PATH = false -> pathSegs (normalize mask u) = pathSegs u)
+  /\ (bit mask M_QUERY = false -> query (normalize mask u) = query u)
+  /\ (bit mask M_FRAGMENT = false -> fragment (normalize mask u) = fragment u).
+Proof. exact mask_clear_unchanged. Qed.
+Print Assumptions C08_mask_clear_unchanged.
+
+(* a selected component takes the form full normalization gives it *)
+Theorem C08_mask_set_full : forall mask u,
+  (bit mask M_SCHEME = true -> scheme (normalize mask u) = scheme (normalize 63 u))
+  /\ (bit mask M_USER_INFO = true -> userInfo (normalize mask u) = userInfo (normalize 63 u))
+  /\ (bit mask M_HOST = true ->
+      hostText (normalize mask u) = hostText (normalize 63 u)
+      /\ ipFuture (normalize mask u) = ipFuture (normalize 63 u))
+  /\ (bit mask M_PATH = true -> pathSegs (normalize mask u) = pathSegs (normalize 63 u))
+  /\ (bit mask M_QUERY = true -> query (normalize mask u) = query (normalize 63 u))
+  /\ (bit mask M_FRAGMENT = true -> fragment (normalize mask u) = fragment (normalize 63 u)).
+Proof. exact mask_set_full. Qed.
+Print Assumptions C08_mask_set_full.
+
+(* ---- D. the mask-required query --------------------------------------------------------- *)
+Theorem C08_mask_required_sufficient : forall u, uri_wf u ->
+  components (normalize (mask_required u) u) = components (normalize 63 u).
+Proof. exact mask_required_sufficient. Qed.
+Print Assumptions C08_mask_required_sufficient.
+
+(* and when the query asks for anything at all, the two results are the same object *)
+Theorem C08_mask_required_sufficient_eq : forall u, uri_wf u -> mask_required u <> 0 ->
+  normalize (mask_required u) u = normalize 63 u.
+Proof. exact mask_required_sufficient_eq. Qed.
+Print Assumptions C08_mask_required_sufficient_eq.
+
+Theorem C08_mask_zero_normal : forall u, uri_wf u -> mask_required u = 0 ->
+  components (normalize 63 u) = components u.
+Proof. exact mask_zero_normal. Qed.
+Print Assumptions C08_mask_zero_normal.
+
+(* the three parts of uri_wf are needed: on URI objects the parser cannot produce the query says 0
+   although full normalization changes the object *)
+Theorem C08_mask_zero_lone_empty_refuted :                     (* host-less, path = [""] *)
+  exists u, uri_pct_wf u = true /\ future_consistent u /\ mask_required u = 0
+            /\ components (normalize 63 u) <> components u.
+Proof. exact mask_zero_lone_empty_refuted. Qed.
+Print Assumptions C08_mask_zero_lone_empty_refuted.
+
+Theorem C08_mask_zero_malformed_pct_refuted :                  (* query "%zz" becomes "%00" *)
+  exists u, future_consistent u /\ lone_empty_hostless u = false /\ mask_required u = 0
+            /\ components (normalize 63 u) <> components u.
+Proof. exact mask_zero_malformed_pct_refuted. Qed.
+Print Assumptions C08_mask_zero_malformed_pct_refuted.
+
+Theorem C08_mask_zero_future_inconsistent_refuted :            (* ipFuture "vA.B", hostText NULL *)
+  exists u, uri_pct_wf u = true /\ lone_empty_hostless u = false /\ mask_required u = 0
+            /\ components (normalize 63 u) <> components u.
+Proof. exact mask_zero_future_inconsistent_refuted. Qed.
+Print Assumptions C08_mask_zero_future_inconsistent_refuted.
+
+(* ---- E. idempotence ------------------------------------------------------------------- *)
+(* "applying it twice equals applying it once" is false in the model (and in the C code): the parsed
+   relative-path reference "./b:c/.." becomes "./" and then "" (known finding D7a) *)
+Theorem C08_idempotent_refuted :
+  exists s u, parse s = POk u /\ uri_wf u
+              /\ components (normalize 63 (normalize 63 u)) <> components (normalize 63 u).
+Proof. exact idempotent_refuted. Qed.
+Print Assumptions C08_idempotent_refuted.
+
+(* it holds for every URI that is not a relative-path reference (scheme, or host, or absolute path) *)
+Theorem C08_idempotent_non_relative : forall u, uri_pct_wf u = true -> relative_ref u = false ->
+  components (normalize 63 (normalize 63 u)) = components (normalize 63 u).
+Proof. exact normalize_idem. Qed.
+Print Assumptions C08_idempotent_non_relative.
+
+(* and, relative or not, whenever the path of the first result is stable (NormalizeProofs.stable_path):
+   no dot segment left, or -- relative-path references only -- a leading ".." run followed by none
+   ("../../a"), or a leading "." in front of a first segment containing ':' followed by none ("./a:b").
+   _partial: that every other result path (the stale "." of "./b:c/.." and "./b:c/../x") is NOT a fixed
+   point, i.e. that the hypothesis is also necessary, is not proved. *)
+Theorem C08_idempotent_partial : forall u, uri_pct_wf u = true ->
+  stable_path (relative_ref u) (pathSegs (normalize 63 u)) = true ->
+  components (normalize 63 (normalize 63 u)) = components (normalize 63 u).
+Proof. exact normalize_idem_stable. Qed.
+Print Assumptions C08_idempotent_partial.
+
+(* ---- the hypotheses are satisfiable: "hTTp://u%41@H%2f:8/a/./%7e/../b?q%3d#f" ------------- *)
+Example C08_nonvacuous :
+  exists u, parse wit_rich = POk u /\ uri_wf u /\ relative_ref u = false /\ mask_required u = 31
+            /\ components (normalize 63 u)
+                = (Some [104;116;116;112], Some [117;65], Some [104;37;50;70], None, None, None, Some [56],
+                   [[97];[98]], false, Some [113;37;51;68], Some [102]).   (* http://uA@h%2F:8/a/b?q%3D#f *)
+Proof. exact wit_rich_ok. Qed.
+
+(* relative-path references the hypothesis of C08_idempotent_partial admits ("../../a/./b", "./a:b/c/..")
+   and the two it must not admit ("./b:c/..", "./b:c/../x") *)
+Example C08_stable_examples :
+  (exists u, parse [46;46;47;46;46;47;97;47;46;47;98] = POk u /\ relative_ref u = true
+             /\ pathSegs (normalize 63 u) = [[46;46];[46;46];[97];[98]]
+             /\ stable_path true (pathSegs (normalize 63 u)) = true)
+  /\ (exists u, parse [46;47;97;58;98;47;99;47;46;46] = POk u /\ relative_ref u = true
+             /\ pathSegs (normalize 63 u) = [[46];[97;58;98];[]]
+             /\ stable_path true (pathSegs (normalize 63 u)) = true)
+  /\ (exists u, parse wit_cancel = POk u /\ stable_path (relative_ref u) (pathSegs (normalize 63 u)) = false)
+  /\ (exists u, parse wit_stale_dot = POk u /\ stable_path (relative_ref u) (pathSegs (normalize 63 u)) = false).
+Proof. repeat split; eexists; (split; [vm_compute; reflexivity|]); repeat split; vm_compute; reflexivity. Qed.
+
+(* ---- remarks (model facts, checked against the C code by the C08 correspondence) ----------
+   * "normal form implies mask 0" is not claimed and is false: NormalizeProofs.mask_query_not_exact
+     ("//%2F" is its own normal form, the query reports HOST because the upper-case test also sees the hex
+     digits of triplets; likewise "[::A]" and "../a").
+   * relative-path references: besides D7a/b/c, NormalizeProofs.idempotent_refuted_stale_dot
+     ("./b:c/../x" -> "./x" -> "x") and NormalizeProofs.relative_dot_eaten ("./b:c/../../x" -> "x",
+     RFC 3986: "../x"). *)
